@@ -245,7 +245,8 @@ func runAll(c Case) (inf info, fails []failure, err error) {
 				inf.nontrivial = true
 			}
 			if b.Op == promParser.LUNLESS {
-				if el == nil && !rb.Equal(rl) {
+				// (topk/bottomk break ties differently from one evaluation to the next: not comparable)
+				if el == nil && !pq.HasTieBreak(b.LHS) && !rb.Equal(rl) {
 					f.err = fmt.Errorf("the flagged side of `%s` does suppress series: the engine returns %s for it and %s for its left side alone\n%s", bt, rb, rl, describe())
 					fails = append(fails, f)
 					continue
@@ -256,7 +257,7 @@ func runAll(c Case) (inf info, fails []failure, err error) {
 				continue
 			}
 			// metamorphic: the flagged selector contributes nothing to the whole query
-			if wholeErr == nil {
+			if wholeErr == nil && !pq.HasTieBreak(node) {
 				mod, merr := pq.WithDeadMatcher(c.Expr, dr.d.Selector)
 				if merr != nil {
 					return inf, nil, fmt.Errorf("harness: %v", merr)
@@ -298,6 +299,8 @@ func runAll(c Case) (inf info, fails []failure, err error) {
 //	                                 other side although ignoring(L) takes L out of the match
 //	"count-values-label-in-without"  one side is `count_values without(.., L, ..) ("L", ...)`: the engine drops the
 //	                                 count_values label when it is also listed in without(), pint takes it as present
+//	"group-include-deletes-label"    the side pint takes to carry L holds `.. group_left(.., L, ..) Y` (or group_right) whose
+//	                                 "one" side Y cannot carry L: the engine then REMOVES L from the result, pint keeps it
 //	"function-reguarantees-removed-label"  the report demands label L because the other side "will have it", but that
 //	                                 side structurally cannot carry L: it is a function call around an aggregation /
 //	                                 on() / ignoring() that removed L below the function, e.g.
@@ -319,7 +322,7 @@ func knownClass(c Case) string {
 		set[cls] = true
 	}
 	var out []string
-	for _, k := range []string{"on-label-neither-side-carries", "ignoring-label-required", "count-values-label-in-without", "function-reguarantees-removed-label", "const-cmp-bool"} {
+	for _, k := range []string{"on-label-neither-side-carries", "ignoring-label-required", "count-values-label-in-without", "group-include-deletes-label", "function-reguarantees-removed-label", "const-cmp-bool"} {
 		if set[k] {
 			out = append(out, k)
 		}
@@ -338,6 +341,8 @@ func failureClass(c Case, f failure) string {
 	switch {
 	case cvQuirk(f.b.LHS, f.label) || cvQuirk(f.b.RHS, f.label):
 		return "count-values-label-in-without"
+	case pq.IncludeDeletes(f.other, f.label):
+		return "group-include-deletes-label"
 	case f.isOn && vm.On && contains(vm.MatchingLabels, f.label) && !pq.MayCarry(f.b.LHS, f.label) && !pq.MayCarry(f.b.RHS, f.label):
 		return "on-label-neither-side-carries"
 	case !f.isOn && !vm.On && contains(vm.MatchingLabels, f.label):
@@ -492,6 +497,9 @@ func drive(t *testing.T, gen func(*rapid.T, map[string]string, *pq.Grammar) (str
 	}
 	if _, ok := known["count-values-label-in-without"]; ok {
 		g.ExcludeCountValuesWithout = true
+	}
+	if _, ok := known["group-include-deletes-label"]; ok {
+		g.ExcludeIncludeAbsent = true
 	}
 	_, boolKnown := known["const-cmp-bool"]
 	rapid.Check(t, func(rt *rapid.T) {
